@@ -2,13 +2,14 @@ SPECIFICATION Spec
 CONSTANTS
   MinN = 2
   MaxN = 3
+  Apis <- BothApis
   Families <- A_Families
   Modes <- A_Modes
   Jacs <- A_Jacs
   MaxIters <- A_MaxIters
-  Boxes <- A_Boxes
-  Starts <- A_Starts
-  Targets <- A_Targets
+  Boxes <- AN_Boxes
+  Starts <- AN_Starts
+  Targets <- AN_Targets
   Slopes <- A_Slopes
   Scales <- A_Scales
   Shears <- A_Shears
@@ -16,4 +17,6 @@ INVARIANT TypeOK
 INVARIANT OptFeasible
 INVARIANT OptIsBoundedMin
 INVARIANT ShearOptIsTarget
+INVARIANT WiderThanStep
+INVARIANT FdPointFeasible
 CHECK_DEADLOCK FALSE
